@@ -1,32 +1,50 @@
 #!/usr/bin/env python3
-"""try_seed.py <name> <patch.diff> <prop> [<prop>...]: apply a seeded change to /repo, run the quick checks of the
-given properties, always undo the change, append the outcome to /verif/work/seeded_results.jsonl."""
+"""try_seed.py <name> <patch.diff> <prop> [<prop>...]: run the quick checks of the given properties against a scratch
+worktree of /repo with the seeded change applied (VERIF_REPO/VERIF_OUT redirect the machinery; /repo and /verif/evidence
+are not touched). Appends the outcome to /verif/work/seeded_results.jsonl. With SEED_IN_REPO=1 the change is applied to
+/repo itself (git apply) and undone afterwards, as the final confirmation run does."""
 import json, os, subprocess, sys, time
 name, patch, props = sys.argv[1], sys.argv[2], sys.argv[3:]
 tier = os.environ.get('SEED_TIER', 'quick')
+inrepo = os.environ.get('SEED_IN_REPO') == '1'
 def sh(cmd, **kw):
     return subprocess.run(cmd, shell=True, capture_output=True, text=True, **kw)
-st = sh('git -C /repo status --porcelain')
-if st.stdout.strip():
-    print('refusing: /repo is dirty:', st.stdout); sys.exit(2)
-a = sh(f'git -C /repo apply {patch}')
+if inrepo:
+    tree, out = '/repo', '/verif'
+    if sh('git -C /repo status --porcelain').stdout.strip():
+        print('refusing: /repo is dirty'); sys.exit(2)
+else:
+    tree, out = '/tmp/mut/seedrun', '/tmp/mut/seedout'
+    if not os.path.isdir(tree):
+        sh(f'git -C /repo worktree add -q --detach {tree} HEAD')
+    sh(f'git -C {tree} checkout -q --detach $(git -C /repo rev-parse HEAD) && git -C {tree} checkout -q . && git -C {tree} clean -fdq')
+    os.makedirs(out, exist_ok=True)
+a = sh(f'git -C {tree} apply {patch}')
 if a.returncode != 0:
     print('patch does not apply:', a.stderr); sys.exit(2)
+env = dict(os.environ, VERIF_REPO=tree, VERIF_OUT=out)
 results = {}
 try:
     for p in props:
         t0 = time.time()
-        r = sh(f'/verif/check {p} {tier}', cwd='/verif')
+        r = sh(f'/verif/check {p} {tier}', cwd='/verif', env=env)
         viol = [l for l in r.stdout.splitlines() if l.startswith('VIOLATION')]
         inc = [l for l in r.stderr.splitlines() if l.startswith('INCONCLUSIVE')]
-        results[p] = {'exit': r.returncode, 'violations': viol[:4], 'inconclusive': inc[:3], 'wall_s': round(time.time() - t0, 1)}
-        print(name, p, 'exit', r.returncode, viol[:1], inc[:1], flush=True)
+        labels = []
+        for v in viol[:3]:
+            try:
+                labels.append(json.load(open(v.split('replay=')[1]))['assert'])
+            except Exception:
+                pass
+        results[p] = {'exit': r.returncode, 'violations': len(viol), 'labels': labels, 'inconclusive': inc[:3], 'wall_s': round(time.time() - t0, 1)}
+        print(name, p, 'exit', r.returncode, labels, inc[:1], flush=True)
         if r.returncode == 1 and os.environ.get('SEED_ALL') is None:
             break
 finally:
-    sh('git -C /repo checkout -- .')
-    sh('git -C /repo clean -fdq')
-    # evidence and replays written against the mutated tree are not evidence for the real tree
-    sh('git -C /verif checkout -- evidence 2>/dev/null; rm -rf /verif/replays')
+    sh(f'git -C {tree} checkout -- . ; git -C {tree} clean -fdq')
+    if inrepo:
+        sh('git -C /verif checkout -- evidence 2>/dev/null; rm -rf /verif/replays')
+    else:
+        sh(f'rm -rf {out}/replays {out}/work')
 with open('/verif/work/seeded_results.jsonl', 'a') as f:
-    f.write(json.dumps({'name': name, 'patch': patch, 'tier': tier, 'results': results, 'detected': any(v['exit'] == 1 for v in results.values())}) + '\n')
+    f.write(json.dumps({'name': name, 'patch': patch, 'tier': tier, 'in_repo': inrepo, 'results': results, 'detected': any(v['exit'] == 1 for v in results.values())}) + '\n')
